@@ -317,6 +317,8 @@ MUTANTS: dict[str, dict[str, list[tuple[str, str, str]]]] = {
                     self._results.put_nowait(task.failure(err))""",
                                             """                except forml.AnyError as err:
                     LOGGER.warning('Task failed: %s', err)""")],
+        'overflow-is-not-a-cast-error': [('forml/io/dsl/_struct/kind.py', 'except (ValueError, TypeError, OverflowError) as err:',
+                                          'except (ValueError, TypeError) as err:')],
         'unknown-application-remembered': [('forml/runtime/_service/dispatch.py',
                                             """            if application not in self._descriptors:  # may have been registered concurrently
                 raise""",
